@@ -315,7 +315,7 @@ fn key_seqs(max: usize) -> Vec<Vec<usize>> {
 pub fn run(tier: Tier) -> i32 {
     let mut ctx = Ctx::new("C19", tier, "model_checking");
     ctx.assume("the reference is an ordered multimap: Vec<Option<(key, value)>> + Option<binary>; a taken value leaves a hole that every observer skips");
-    let depth = tier.pick(4, 5);
+    let depth = tier.pick(5, 6);
     let mut frames: Vec<(Vec<usize>, bool)> = Vec::new();
     for ks in key_seqs(4) {
         frames.push((ks.clone(), false));
